@@ -73,6 +73,7 @@ type Interp struct {
 	invMemo   map[string]*Term
 	bigVals   map[*Obj]*Term
 	bigField  map[*Obj]*Term // big.Int objects that carry a field value (Element.BigInt / SetBigInt)
+	sched     *Sched // nil: sequential model (a goroutine runs to completion where it is spawned)
 	memoTerms map[string][]*Term // deterministic opaque functions (canonical encodings, SetBytes): same argument terms, same result
 	codecStore [][]Val
 	noSummary bool  // set while running a harness whose name says it validates a summary
@@ -523,7 +524,11 @@ func (in *Interp) exec(fr *Frame, instr ssa.Instruction) {
 	case *ssa.Go:
 		// sequential model: the goroutine runs to completion here (one legal schedule)
 		f, args := in.callee(fr, &i.Call)
-		in.invoke(f, args)
+		if in.sched != nil {
+			in.spawn(f, args)
+		} else {
+			in.invoke(f, args)
+		}
 	case *ssa.RunDefers:
 		for len(fr.defers) > 0 {
 			d := fr.defers[len(fr.defers)-1]
@@ -618,9 +623,17 @@ func (in *Interp) exec(fr *Frame, instr ssa.Instruction) {
 	case *ssa.Next:
 		fr.locals[i] = in.next(fr, i)
 	case *ssa.MakeChan:
-		fr.locals[i] = ChanV{C: &ChanObj{}}
+		co := &ChanObj{}
+		if in.sched != nil {
+			co.Cap = in.needInt(in.get(fr, i.Size).(*Term), "channel capacity")
+		}
+		fr.locals[i] = ChanV{C: co}
 	case *ssa.Send:
 		ch := in.get(fr, i.Chan).(ChanV)
+		if in.sched != nil {
+			in.chanSend(ch, in.get(fr, i.X))
+			break
+		}
 		if ch.C == nil {
 			panic(abort("unmodelled", "send on nil channel"))
 		}
@@ -710,6 +723,16 @@ func (in *Interp) unop(fr *Frame, i *ssa.UnOp) Val {
 		return in.s.BVNot(x.(*Term))
 	case token.ARROW:
 		ch := x.(ChanV)
+		if in.sched != nil {
+			v, ok := in.chanRecv(ch)
+			if !ok {
+				v = in.zero(i.X.Type().Underlying().(*types.Chan).Elem())
+			}
+			if i.CommaOk {
+				return TupleV{v, BoolConst(ok)}
+			}
+			return v
+		}
 		if ch.C == nil || len(ch.C.Queue) == 0 {
 			if ch.C != nil && ch.C.Closed {
 				z := in.zero(i.X.Type().Underlying().(*types.Chan).Elem())
@@ -1326,6 +1349,9 @@ func (in *Interp) builtin(fr *Frame, name string, args []Val, c *ssa.CallCommon)
 		case *ArrayV:
 			return BVConst(uint64(len(x.E)), 64)
 		case ChanV:
+			if in.sched != nil && x.C != nil {
+				return BVConst(uint64(x.C.Cap), 64)
+			}
 			return BVConst(1<<20, 64)
 		}
 	case "append":
@@ -1424,6 +1450,9 @@ func (in *Interp) builtin(fr *Frame, name string, args []Val, c *ssa.CallCommon)
 		return IfaceV{}
 	case "close":
 		if ch, ok := args[0].(ChanV); ok && ch.C != nil {
+			if in.sched != nil && ch.C.Closed {
+				in.progPanic("close of closed channel")
+			}
 			ch.C.Closed = true
 		}
 		return nil
